@@ -22,10 +22,17 @@ def run(check, tier):
         return None
     return p.returncode == 1 and "VIOLATION property=" in txt
 
-for p in sorted(glob.glob("/tmp/mut/*/_out/patch*.diff")):
-    d0 = p.split("/")[3]
-    n = re.search(r"patch(\d)", p).group(1)
-    key = f"{d0}-{n}"
+SEEDED = "--seeded" in sys.argv  # use the kept copies under /verif/seeded instead of the scratch outputs
+only = set(a for a in sys.argv[1:] if not a.startswith("--"))
+patches = sorted(glob.glob("/verif/seeded/*/patch.diff")) if SEEDED else sorted(glob.glob("/tmp/mut/*/_out/patch*.diff"))
+for p in patches:
+    if SEEDED:
+        key = p.split("/")[3]
+        d0, n = key.rsplit("-", 1)
+    else:
+        d0 = p.split("/")[3]
+        n = re.search(r"patch(\d)", p).group(1)
+        key = f"{d0}-{n}"
     if only and key not in only and d0 not in only:
         continue
     if subprocess.run(["git", "-C", "/repo", "diff", "--quiet"]).returncode != 0:
